@@ -192,11 +192,11 @@ let () =
       bump "kernel_records"; bump ("namelen_mod16_" ^ string_of_int (String.length (unhex name) mod 16));
       if not (x_env_ok h.s (KEmit r)) then emit "KERNEL" "emit-for-dead-mark" h.id h.stepno (raw_str r);
       h.s <- fst (x_step h.cfg h.s (KEmit r)); h.confirmed <- h.confirmed + 1
-    | ["krelease"; wd], Some h ->
+    | ["krelease"; wd; ds], Some h ->
       bump "kernel_releases";
-      let st = KRelease (n_of_int (int_of_string wd)) in
+      let st = KRelease (n_of_int (int_of_string wd), ds = "1") in
       if not (x_env_ok h.s st) then emit "KERNEL" "release-of-dead-mark" h.id h.stepno wd;
-      h.s <- fst (x_step h.cfg h.s st); h.confirmed <- h.confirmed + 1
+      h.s <- fst (x_step h.cfg h.s st); h.confirmed <- h.confirmed + (if ds = "1" then 2 else 1)
     | ["koverflow"], Some h ->
       bump "kernel_overflows"; h.benign <- false;
       h.s <- fst (x_step h.cfg h.s KOverflow); h.confirmed <- h.confirmed + 1
